@@ -83,9 +83,10 @@ func init() {
 		"vnChoice": func(x *X, fn *ssa.Function, a []Value) Value {
 			v := x.nondet(a, 64)
 			n := a[1].(*T)
-			if !x.branch(x.B.ULT(v, n)) {
-				panic(pathEnd{"infeasible", "vnChoice out of range"})
+			if n.IsConst() && n.Val == 0 {
+				panic(pathEnd{"infeasible", "vnChoice with no alternatives"})
 			}
+			x.addPC(x.B.ULT(v, n))
 			return x.c64(x.concretize(v, "vnChoice"))
 		},
 		"vassume": func(x *X, fn *ssa.Function, a []Value) Value {
@@ -96,9 +97,11 @@ func init() {
 			if c.IsFalse() {
 				panic(pathEnd{"infeasible", "assume false"})
 			}
-			r, _ := x.check([]*T{c}, nil)
-			if r == smt.Unsat {
-				panic(pathEnd{"infeasible", "assumption unsatisfiable"})
+			if !x.replaying() {
+				r, _ := x.check([]*T{c}, nil)
+				if r == smt.Unsat {
+					panic(pathEnd{"infeasible", "assumption unsatisfiable"})
+				}
 			}
 			x.addPC(c)
 			return nil
@@ -113,7 +116,7 @@ func init() {
 		},
 		"vreach": func(x *X, fn *ssa.Function, a []Value) Value {
 			l := x.strArg(a[0])
-			if x.St.Reached[l] {
+			if x.St.Reached[l] || x.replaying() {
 				return nil
 			}
 			r, vals := x.check(nil, x.inputs)
@@ -568,6 +571,11 @@ func (x *X) assert(c *T, msg, knownID string, sig *T) {
 	if c.IsTrue() {
 		return
 	}
+	if x.replaying() {
+		// checked on an earlier path with the same prefix
+		x.addPC(c)
+		return
+	}
 	neg := x.B.Not(c)
 	open := knownID != "" && x.Cfg.OpenKnown[knownID]
 	extra := []*T{neg}
@@ -591,9 +599,11 @@ func (x *X) assert(c *T, msg, knownID string, sig *T) {
 		}
 	}
 	// continue under the assertion (later assertions are checked assuming earlier ones)
-	r3, _ := x.check([]*T{c}, nil)
-	if r3 == smt.Unsat {
-		panic(pathEnd{"infeasible", "path dead after failed assertion"})
+	if r != smt.Unsat || open {
+		r3, _ := x.check([]*T{c}, nil)
+		if r3 == smt.Unsat {
+			panic(pathEnd{"infeasible", "path dead after failed assertion"})
+		}
 	}
 	x.addPC(c)
 }
